@@ -194,7 +194,116 @@ def run_C17(ctx):
         ctx.run("c-asan", "eng_deflate.c", scale=0.4)
 
 
+def infl_cov(rule, expl):
+    def f(ctx, agg):
+        st = agg.stats
+        c = {"rule": rule, "explanation": expl, "streams": int(st.get("streams", 0)), "library_calls": int(st.get("library_calls", 0)),
+             "cpu_levels_simulated": sorted(agg.sets.get("cpu_levels", [])),
+             "streams_with_code_lengths_13_to_15": int(st.get("streams_with_codes_13plus", 0)),
+             "finished_results_checked_against_reference": int(st.get("finished_results_checked_against_reference", 0)),
+             "mutants_still_valid_and_accepted": int(st.get("mutants_still_valid_and_accepted", 0)),
+             "rejected_by_isal_but_only_the_lenient_reference_accepts": int(st.get("rejected_but_reference_lenient", 0)),
+             "trailer_straddling_histories": int(st.get("trailer_straddling_histories", 0)), "need_dict_flows": int(st.get("need_dict_flows", 0))}
+        for k in ("stream_source", "decodes_per_mode", "return_codes", "resume_block_states", "faults_detected", "faults_with_documented_class", "block_type_pairs", "flip_region", "systematic_split_streams"):
+            if k in agg.cnts:
+                c[k] = dict(sorted(agg.cnts[k].items()))
+        return c
+    return f
+
+
+def infl_floor(min_decodes, extra=None):
+    def f(ctx, agg):
+        miss = []
+        if agg.stats.get("evaluations", 0) < min_decodes:
+            miss.append("only %d decodes judged (< %d)" % (agg.stats.get("evaluations", 0), min_decodes))
+        if len(agg.sets.get("cpu_levels", [])) < 3:
+            miss.append("fewer than 3 decode-kernel CPU levels")
+        if extra:
+            miss += extra(ctx, agg)
+        return miss
+    return f
+
+
+def run_C02(ctx):
+    ctx.run("asm", "eng_inflate.c")
+    ctx.run("hist8k", "eng_inflate.c", scale=0.15)
+    ctx.run("longer", "eng_inflate.c", scale=0.15)
+    if ctx.thorough:
+        ctx.run("asm-asan", "eng_inflate.c", scale=0.1)
+        ctx.run("c-asan", "eng_inflate.c", scale=0.4)
+
+
+def run_C06(ctx):
+    ctx.run("asm", "eng_inflate.c")
+    ctx.run("c-asan", "eng_inflate.c", scale=0.25 if ctx.thorough else 0.12)
+    if ctx.thorough:
+        ctx.run("asm-asan", "eng_inflate.c", scale=0.1)
+
+
+def merge_cov(*fs):
+    def f(ctx, agg):
+        c = {}
+        for g in fs:
+            for k, v in g(ctx, agg).items():
+                if k in ("rule", "explanation") and k in c:
+                    c[k] = c[k] + " || " + v
+                else:
+                    c.setdefault(k, v)
+        return c
+    return f
+
+
+def run_C07(ctx):
+    ctx.run("asm", "eng_deflate.c")
+    ctx.run("asm", "eng_inflate.c")
+    if ctx.thorough:
+        ctx.run("c-asan", "eng_deflate.c", scale=0.3)
+        ctx.run("c-asan", "eng_inflate.c", scale=0.3)
+        ctx.run("hist8k", "eng_deflate.c", scale=0.1)
+
+
+def run_C11(ctx):
+    ctx.run("asm", "eng_deflate.c", scale=0.6)
+    ctx.run("asm", "eng_inflate.c")
+    if ctx.thorough:
+        ctx.run("c-asan", "eng_inflate.c", scale=0.3)
+
+
 PROPS = {
+    "C07": dict(
+        run=run_C07, level="exploration",
+        coverage=merge_cov(defl_cov(
+            "compression histories: disciplines refill-before-drain / drain-before-refill / random; input chunk sizes {0,1,2,3,7,8,9,15,16,17,31,32,33,255,256,257,288,289,32767,32768,32769,65535,65536,all,random}; output chunk sizes {1,2,3,7,8,9,15,16,17,64,223,224,225,327,328,329,all,random,1..7,alternating 1/300,geometric}; flush mode re-drawn per call from 6 scripts (incl. flush starved of output then a different mode); end_of_stream with the last data / late / after several empty calls; zero-length calls; every chunk optionally in its own guard-page mapping that is unmapped once consumed; all levels, wrappers, simulated CPU levels",
+            "per-call event log checked for conservation (sum consumed = total_in, sum produced = total_out), consistent next/avail/total deltas, untouched caller fields, context invariants, bounded progress (livelock / non-termination); final stream decoded by reference and zlib"),
+            infl_cov("decompression histories over valid streams (grammar generated, zlib made, ISA-L made): every single split point of the input and of the output for small streams, chunk-size pairs as above, random schedules, splits inside the trailer, ISAL_NEED_DICT -> isal_inflate_set_dict -> continue",
+                     "bytes, finish state, end position and checksum field must equal the reference result for every slicing")),
+        floors=lambda ctx, agg: ([] if agg.stats.get("evaluations", 0) > 4000 else ["too few histories"]) + ([] if len(agg.cnts.get("tmp_state_resume_points", {})) >= 8 else ["only %d ZSTATE_TMP_* resume points seen" % len(agg.cnts.get("tmp_state_resume_points", {}))]) + ([] if len(agg.cnts.get("resume_block_states", {})) >= 9 else ["inflate resume states seen: %s" % sorted(agg.cnts.get("resume_block_states", {}))]) + ([] if sum(agg.cnts.get("systematic_split_streams", {}).values()) >= 20 else ["systematic split streams: %s" % agg.cnts.get("systematic_split_streams", {})]),
+        assumptions=["flush requests are only repeated while there is unflushed input (a flush request with nothing to flush legitimately emits another empty block)"],
+    ),
+    "C11": dict(
+        run=run_C11, level="fault_enumeration",
+        coverage=merge_cov(defl_cov("producer: wrapped streams (gzip, gzip-nohdr, zlib, zlib-nohdr) from all levels under streaming schedules and one-shot calls", "trailer CRC-32/ISIZE and big-endian Adler-32 compared with the reference checksum of the input by the reference wrapper decoder and zlib"),
+                           infl_cov("verifier: valid wrapped streams (ISA-L, zlib and grammar made) with single-bit flips (everywhere for streams <= 1 KiB, else header / first and last 64 bytes / trailer), byte substitutions, every kind of truncation and trailer edits; decoded stateless and streaming with chunkings that cut inside the last 12 bytes",
+                                    "success is accepted only if the trailer bytes actually present equal the reference checksum/length of the bytes delivered (sound for benign flips and collisions); state->crc after completion must equal the reference checksum")),
+        floors=lambda ctx, agg: ([] if agg.stats.get("trailer_straddling_histories", 0) >= 2000 else ["trailer straddling histories %d" % agg.stats.get("trailer_straddling_histories", 0)]) + ([] if agg.stats.get("mutants_still_valid_and_accepted", 0) >= 1 else ["no benign mutation observed"]) + ([] if len(agg.cnts.get("flip_region", {})) >= 3 else ["flip regions %s" % agg.cnts.get("flip_region", {})]),
+        assumptions=["*_NO_HDR modes do not consume or verify the trailer (documented); gzip header reserved bits are not judged"],
+    ),
+    "C02": dict(
+        run=run_C02, level="exploration",
+        coverage=infl_cov(
+            "valid streams from three sources: the deflate grammar generator (stored/fixed/dynamic blocks in any order, random complete prefix codes up to depth 15 incl. forced deep and skewed codes, single-code and empty alphabets, 16-after-zero-run code-length encodings, all length/distance symbols incl. distance 32768, overlapping copies, long literal runs), zlib (levels 0-9, 5 strategies, window 9..15, random flushes, dictionaries) and ISA-L itself; gzip headers with random optional fields, zlib headers; each decoded in every applicable wrapper mode stateless (ample / exact / too small output) and streaming (one call, random schedule with fresh guard-page mappings, split inside the trailer) under the CPU levels that select each decode kernel; distinct by hash of the stream",
+            "expected bytes come from the generator's token list (no decoder involved) and are re-confirmed by the reference decoder (a disagreement there is a harness failure); ISA-L must finish with ISAL_DECOMP_OK/ISAL_BLOCK_FINISH, identical bytes, end position = bytes taken - read_in_length/8 equal to the true end, state->crc equal to the reference checksum; reduced-window builds decode their own output"),
+        floors=infl_floor(3000, lambda ctx, agg: (["fewer than 300 streams with 13-15 bit codes"] if agg.stats.get("streams_with_codes_13plus", 0) < 300 else []) + (["block type pairs seen: %d of 9" % len(agg.cnts.get("block_type_pairs", {}))] if len(agg.cnts.get("block_type_pairs", {})) < 9 else []) + (["wrapper modes: %d of 7" % len(agg.cnts.get("decodes_per_mode", {}))] if len(agg.cnts.get("decodes_per_mode", {})) < 7 else [])),
+        assumptions=["inflate_state at malloc-grade alignment; data buffers arbitrary", "generator emits only grammatically valid streams (checked against the reference decoder and, in setup, zlib)"],
+    ),
+    "C06": dict(
+        run=run_C06, level="fault_enumeration",
+        coverage=infl_cov(
+            "hostile inputs: pure random bytes (with and without valid magic), 14 grammar-level fault classes injected by the generator with 80 bytes of trailing input (BTYPE=3, LEN/NLEN, HLIT/HDIST>29, over-subscribed code-length / lit-len / distance sets, repeat without previous, repeat overrun, missing EOB code, symbols 286/287, distance 30/31, unassigned code of an incomplete set, distance beyond output), and single-bit flips / byte substitutions / truncations / trailer edits of valid streams from all three sources; each decoded stateless with output sizes {0,1,7,8,exact-1,exact,exact+1,big} and streaming with random chunking in fresh guard-page mappings, in every wrapper mode, on the assembly build and the all-C ASan+bounds build; distinct by hash of the mutated stream",
+            "a 'finished' result is accepted only if the independent decoder also decodes the stream (lenient exactly where RFC 1951 is) to the same bytes and, in verifying modes, the stored trailer matches; return codes must be documented ones; every call must make progress or report; injected single faults must return the documented class; ISA-L refusing what only the lenient reference accepts is counted, not alarmed (alarmed when zlib accepts it too)"),
+        floors=infl_floor(8000, lambda ctx, agg: (["fault classes detected: %d of 13" % len(agg.cnts.get("faults_detected", {}))] if len(agg.cnts.get("faults_detected", {})) < 13 else []) + (["negative return codes seen: %s" % sorted(k for k in agg.cnts.get("return_codes", {}) if k.startswith("-"))] if len([k for k in agg.cnts.get("return_codes", {}) if k.startswith("-")]) < 6 else [])),
+        assumptions=["HDIST 30/31 is refused by ISA-L and zlib but not forbidden by RFC 1951: only the returned class is compared", "reserved gzip FLG bits and zlib CINFO > 7 are not treated as errors by the oracle (the property does not claim them)"],
+    ),
     "C10": dict(
         run=run_C10, level="exploration",
         coverage=defl_cov(
